@@ -479,3 +479,35 @@ def row_contains(sg, letter, p, tol=1e-5):
                 if np.abs(M.T @ W - rhs).max() < tol:
                     return True
     return False
+
+
+def params_of(ds, env):
+    return [[float(concrete(np.array([x], dtype=object), env)[0]) if isinstance(x, SReal) else float(x) for x in p] for p in ds["_params"]]
+
+
+def validate_against_real(sg, ds, env, sym_T, sym_conv_f, sym_letters, order=None, orig_order=None, transform=None):
+    """witness replay of the stubs (StubAtoms, numpy proxy, rational tables, exact wrap): the real analyzer with real
+    numpy/ASE on the concrete dataset of this path must choose the same transformation, letters and positions (mod 1)"""
+    vals = params_of(ds, env)
+    flat = [v for p in vals for v in p]
+    cds = concrete_dataset(sg, ds["_occupation"], vals, transform=transform, order=order, orig_order=orig_order)
+    ses = RealSession([cds])
+    with ses.active():
+        an = ses.start(symmetry_tol=1e-4)
+        conv = an.get_conventional_system()
+        T = np.asarray(an._best_transform["transformation"], dtype=float)
+        letters = [str(x) for x in an.get_wyckoff_letters_conventional()]
+    Ts = np.array([[float(v) for v in row] for row in sym_T], dtype=float)
+    if not np.allclose(T, Ts, atol=1e-6):
+        return f"real run chose transformation {T.tolist()}, symbolic run {Ts.tolist()}"
+    if letters != [str(x) for x in sym_letters]:
+        return f"real run letters {letters}, symbolic run {list(map(str, sym_letters))}"
+    f_real = conv.get_scaled_positions(wrap=False)
+    f_sym = concrete(sym_conv_f, env)
+    d = f_real - f_sym
+    if np.abs(d - np.round(d)).max() > 1e-6:
+        # a coordinate within 1e-5 of a cell face is snapped by the real get_wrapped_positions: boundary witness
+        if np.abs(f_sym - np.round(f_sym)).min() < 2e-5:
+            return None
+        return "real conventional positions differ from the symbolic ones"
+    return True
